@@ -113,7 +113,7 @@ def gen_cases(rng, tier):
         base = kind.replace("sys_", "")
         nk = rng.choice([1, 2])
         keys = [{"name": n, "shape": rng.choice(["()", "(1,)", "(k,)"]), "k": 2} for n in c12.KEY_POOL[:nk]]
-        c = dict(kind=kind, d=rng.choice([1, 2]), m=rng.choice([1, 2]) if not quick else 1, keys=keys,
+        c = dict(kind=kind, d=rng.choice([1, 2]), m=rng.choice([1, 2]), keys=keys,
                  batched=None, B=rng.choice([2, 4]), obs=None, het=None, malformed=None, E=E, U=U,
                  same_names=rng.random() < 0.25,
                  terms={"dyn": True, "ic": base != "statio", "boundary": base != "ode", "norm": base != "ode"})
@@ -124,17 +124,31 @@ def gen_cases(rng, tier):
             for t in ("ic", "boundary", "norm"):
                 if c["terms"][t] and rng.random() < 0.3:
                     spec[t] = False
+            # the component a boundary condition applies to differs between unknowns
+            spec["bdim"] = rng.choice([None, 0, 1])
             pu[f"u{i}"] = spec
         c["per_unknown"] = pu
         if rng.random() < 0.7:
             who = [f"u{i}" for i in range(U) if rng.random() < 0.7] or ["u0"]
-            c["obs"] = {"eq_keys": [], "slice": c["m"] == 2 and rng.random() < 0.5, "unknowns": who}
+            c["obs"] = {"eq_keys": [], "slice": False, "unknowns": who}
         if rng.random() < 0.25:
             names = [k["name"] for k in keys]
             c["batched"] = rng.sample(names, rng.randint(1, len(names)))
         # dynamic_loss_dict / u_dict (and every per-unknown dict) are built in a non-sorted key order
         c["eq_order"] = rng.sample(range(E), E)
         c["u_order"] = rng.sample(range(U), U)
+        if c["obs"] is not None and c["m"] == 2 and rng.random() < 0.75:
+            # user-given obs_slice_dict: channel slices of equal width that DIFFER between unknowns; an unknown that
+            # is not the last one of u_dict has observations and a slice different from the last one's
+            ordered = [f"u{i}" for i in c["u_order"]]
+            sl = {u: rng.choice([0, 1]) for u in ordered}
+            if U >= 2:
+                first_obs = next((u for u in ordered[:-1] if u in c["obs"]["unknowns"]), None)
+                if first_obs is None:
+                    first_obs = ordered[0]
+                    c["obs"]["unknowns"] = sorted(set(c["obs"]["unknowns"]) | {first_obs})
+                sl[first_obs] = 1 - sl[ordered[-1]]
+            c["obs"]["slices"] = sl
         return c
 
     fields_of = lambda kind: FIELDS_ODE if kind == "sys_ode" else FIELDS_PDE
@@ -211,7 +225,8 @@ def _shrink(case):
         if case["terms"].get(t):
             yield {**c, "terms": {**case["terms"], t: False}}
     if case.get("m", 1) > 1:
-        yield {**c, "m": 1, "obs": ({**case["obs"], "slice": False} if case.get("obs") else None)}
+        yield {**c, "m": 1, "obs": ({k: v for k, v in {**case["obs"], "slice": False}.items() if k != "slices"}
+                                    if case.get("obs") else None)}
     if case.get("d", 1) > 1:
         yield {**c, "d": 1}
     if case["B"] > 2:
@@ -358,6 +373,11 @@ def tags(case, obs):
         out.append("parameter_batch")
     if case.get("obs"):
         out.append("observations")
+        sl = case["obs"].get("slices")
+        if sl and len(set(sl.values())) > 1:
+            out.append("per_unknown_obs_slices_differ")
+    if len({(v or {}).get("bdim") for v in (case.get("per_unknown") or {}).values()}) > 1 and case.get("m", 1) > 1:
+        out.append("per_unknown_boundary_dims_differ")
     o = obs["observed"]
     out.append("impl=" + ("error:" + o["error"] if "error" in o else "value"))
     if obs.get("plain") is not None:
